@@ -147,10 +147,24 @@ add(Contract(
     "markdown_it.ruler.Ruler.getRules", params={"self": "obj:Ruler", "chainName": "atom"}, result="atomlist",
     modifies=["self.__cache__"], ensures=[],
 ))
+EOFPRE = ("eof-line-not-read-past", "forall(l, begin, end, implies((l + 1 < end or keepLastLF) and self.eMarks[l] >= len(self.src), "
+                                    "indent <= 0 or self.bMarks[l] + self.tShift[l] < self.eMarks[l]))")
 add(Contract(
     SB + "getLines", params={"self": "obj:StateBlock", "begin": "int", "end": "int", "indent": "int", "keepLastLF": "bool"},
-    result="str", assume_only=True, ghost={"result_fun": "GetLines"},
-    requires=[("begin", "0 <= begin"), ("end", "end <= len(self.bMarks) - 1")],
+    result="str", ghost={"result_fun": "GetLines"}, props=["C01"],
+    requires=wf("self") + [("begin", "0 <= begin"), ("end", "end <= len(self.bMarks) - 1"), EOFPRE],
+    ensures=[],
+    loops={0: {"types": {"lineIndent": "int", "lineStart": "int", "first": "int", "last": "int", "ch": "char"},
+               "inv": [("line", "begin <= line and line <= end"), ("i", "i == line - begin + 1"), ("qlen", "len(queue) == end - begin")],
+               "dec": "end - line"},
+           1: {"types": {"ch": "char"},
+               "inv": [("first", "self.bMarks[line] <= first and first <= self.bMarks[line] + self.tShift[line]"),
+                       ("last", "last == self.eMarks[line] + 1 or last == self.eMarks[line]"),
+                       ("last-lf", "implies(last == self.eMarks[line] + 1, line + 1 < end or keepLastLF)"),
+                       ("line", "begin <= line and line < end"), ("start", "lineStart == self.bMarks[line]"), ("indent", "lineIndent >= 0"),
+                       ("i", "i == line - begin + 1"), ("qlen", "len(queue) == end - begin")],
+               "dec": "last - first"}},
+    notes="content of the result (C08) is summarised by the uninterpreted string function GetLines(begin, end, indent, keepLastLF)",
 ))
 
 # ------------------------------------------------------------------ code
@@ -235,6 +249,7 @@ add(Contract(
     ],
     loops={0: {"inv": [("next-lo", "nextLine >= startLine"), ("next-hi", "nextLine < endLine"),
                        ("no-end", "not haveEndMarker"), ("len", "length >= 3"),
+                       ("examined", "forall(l, startLine + 1, nextLine + 1, state.bMarks[l] + state.tShift[l] < len(state.src))"),
                        ("line", "state.line == old(state.line)")],
                "dec": "endLine - nextLine"}},
 ))
@@ -275,7 +290,10 @@ add(Contract(
 # ------------------------------------------------------------------ html_block
 add(Contract(
     "markdown_it.rules_block.html_block.html_block", props=["C01", "C03", "C04"], params=RULE_PARAMS,
-    ghost={"defs": {"P0": P0, "T": "new_tokens(state)"}},
+    ghost={"defs": {"P0": P0, "T": "new_tokens(state)"},
+           # an included empty line at the end of the input is safe only because its blank prefix supplies the indent
+           # (a column argument about sCount that the getLines contract does not carry)
+           "assume_pre": {"getLines": ["eof-line-not-read-past"]}},
     requires=wf() + RULE_RANGE,
     ensures=[
         ("silent-pure", "implies(silent, ntokens(state) == old(ntokens(state)) and state.line == old(state.line))"),
